@@ -20,6 +20,7 @@ CONSTANTS Roles,     \* endpoint under test: "client_gm", "server_gm", "server_a
           Truncs,    \* how a message body is cut / which length field is perturbed
           Versions,  \* client_version values written into the ClientHello
           SuiteRewrites,
+          SelfMals,  \* how the inner 16-bit length of a self-produced key-exchange message is wrong
           ClientAuth \* BOOLEAN: the honest flight includes CertificateRequest / client Certificate / CertificateVerify
 
 \* the honest sequence of plaintext handshake messages the endpoint under test RECEIVES
@@ -49,6 +50,9 @@ Apply(h, kk, o) ==
     [] o.op = "replace" -> SubSeq(h, 1, kk - 1) \o <<"X:" \o o.t>> \o SubSeq(h, kk + 1, Len(h))
     \* ClientHello rewritten in transit: other version, other suite list, no null compression
     [] o.op \in {"chvers", "chsuites", "chcomp"} -> <<"MOD">> \o SubSeq(h, 2, Len(h))
+    \* the peer itself produces (and hashes into its own transcript) a key-exchange message whose inner length prefix
+    \* is wrong: no transcript divergence will save the endpoint, its parser has to notice
+    [] o.op = "selfmal" -> SubSeq(h, 1, kk - 1) \o <<"BAD">> \o SubSeq(h, kk + 1, Len(h))
     [] o.op = "close"  -> SubSeq(h, 1, kk - 1) \o <<"EOF">>
     [] o.op = "ccs"    -> SubSeq(h, 1, kk - 1) \o <<"X:CCS">> \o SubSeq(h, kk, Len(h))
     [] o.op \in {"appdata", "appdata_empty"} -> SubSeq(h, 1, kk - 1) \o <<"X:APP">> \o SubSeq(h, kk, Len(h))
@@ -62,6 +66,7 @@ Ops(h) == {[op |-> "none"], [op |-> "refrag"]} \cup
           {[op |-> "inject", k |-> i, t |-> t] : i \in 1..(Len(h) + 1), t \in InjTypes} \cup
           {[op |-> "trunc", k |-> i, how |-> w] : i \in 1..Len(h), w \in Truncs} \cup
           UNION {{[op |-> "replace", k |-> i, t |-> t] : t \in InjTypes \ {h[i]}} : i \in 1..Len(h)} \cup
+          {[op |-> "selfmal", k |-> i, how |-> w] : i \in {j \in 1..Len(h) : h[j] \in {"CKE", "SKE"}}, w \in SelfMals} \cup
           (IF h[1] = "CH" THEN {[op |-> "chvers", k |-> 1, v |-> v] : v \in Versions} \cup
                                {[op |-> "chsuites", k |-> 1, how |-> w] : w \in SuiteRewrites} \cup
                                {[op |-> "chcomp", k |-> 1]}
